@@ -131,6 +131,9 @@ def actions(node):
                     out.append(("L", lab.replace(".clone()", "")))
             elif x["m"] in OP_APPLIERS:
                 out.append(("P", None))
+            elif any(a["k"] == "Lit" and a.get("t") == "str" and str(a.get("v", "")).startswith("prelude.") for a in x["args"]):
+                # a method standing where the local `helper("prelude.Iface.method")` closure stood
+                out.append(("H", next(a["v"] for a in x["args"] if a["k"] == "Lit" and a.get("t") == "str" and str(a.get("v", "")).startswith("prelude."))))
             elif x["m"] in ("handle_func_call", "translate_iface_method_call_helper", "translate_func_call", "translate_lambda_call", "translate_num_method_call"):
                 out.append(("C", x["m"]))
         elif x["k"] == "Call" and x["f"]["k"] == "Path" and (x["f"]["p"] in ("helper",) or x["f"]["p"] in OP_APPLIERS or (isinstance(x.get("inl"), dict) and x["inl"].get("closure"))):
@@ -220,7 +223,9 @@ def binop_tables(ctx, r):
     from lib.inline import emits_code, materialize
 
     named = {"handle_func_call", "translate_iface_method_call_helper", "translate_func_call", "translate_lambda_call", "translate_num_method_call", "emit_intrinsic", "translate_declaration"}
-    pred = lambda inl: not inl.get("closure") and inl.get("callee") not in named and emits_code(inl)  # noqa: E731
+    # (a helper that dispatches to an interface method named by a string argument stays a call: its name argument is what counts)
+    dispatches = lambda inl: any(y["k"] == "MethodCall" and y["m"] in ("translate_iface_method_call_helper", "get_iface_decl") for y in q.walk(inl["body"]))  # noqa: E731
+    pred = lambda inl: not inl.get("closure") and inl.get("callee") not in named and emits_code(inl) and not dispatches(inl)  # noqa: E731
     binarm = materialize(binarm, pred=pred)
     unarm = materialize(unarm, pred=pred)
     left, opname, right = [e["name"] for e in binarm["pat"]["elems"]]
@@ -244,6 +249,24 @@ def binop_tables(ctx, r):
                     ops[h] = {"types": tbl, "after": trailing_after(arm["body"], tm, opname)}
                 else:
                     ops[h] = {"types": {"_": acts}, "after": []}
+    # the same table written as one match on (operator, operand type)
+    for m in q.walk(binarm["body"]):
+        if not (m["k"] == "Match" and m["e"]["k"] == "Tuple" and len(m["e"]["elems"]) == 2 and q.show(m["e"]["elems"][0]).lstrip("*&") == opname):
+            continue
+        holder = next((b for b in q.walk(binarm["body"]) if b["k"] == "Block" and any(st_ is m or st_.get("e") is m for st_ in b["stmts"])), None)
+        after = trailing_after(holder, m, opname) if holder is not None else []
+        for arm in m["arms"]:
+            if arm["pat"].get("k") != "PTuple" or len(arm["pat"]["elems"]) != 2:
+                continue
+            heads = [q.last_seg(h) for h in q.pat_heads(arm["pat"]["elems"][0]) if h.startswith("BinaryOperator::")]
+            tys = [q.last_seg(h) if h != "_" else "_" for h in q.pat_heads(arm["pat"]["elems"][1])]
+            acts = actions(arm["body"])
+            if not heads or acts == [("X", "unreachable")]:
+                continue
+            for h in heads:
+                ent = ops.setdefault(h, {"types": {}, "after": after})
+                for t in tys:
+                    ent["types"].setdefault(t, acts)
     # order of operand translation in the arm
     order = [a for a in actions(binarm["body"]) if a[0] == "T"]
     pre = {}
@@ -325,7 +348,7 @@ def assign_tables(ctx, r):
     return per_op, forms
 
 
-@rule("PIPE", ["C02", "C15", "C16", "C24"], "every operator's chain lexer -> parser -> translator -> assembler -> VM arm ends in the documented operation")
+@rule("PIPE", ["C02", "C15", "C16", "C24", "C20"], "every operator's chain lexer -> parser -> translator -> assembler -> VM arm ends in the documented operation")
 def pipe(ctx, r):
     arms = _arms(ctx, r)
     if arms is None:
@@ -468,6 +491,12 @@ def pipe(ctx, r):
             if not want and not got:
                 continue
             r.ob(want == got, f"translate_bytecode.rs:translate_stmt:Assign:{sym}:{ty}", TB, 0, f"`{sym}` on {ty} emits {got}; binary `{base}` emits {want}", sample=f"`{sym}` {ty} = `{base}`: {[g[1] for g in got]}")
+        # operands of any other type go through the operator's interface method: the same one as the binary operator
+        other = [a[1] for a in (per_op.get(aop, {}).get("_") or []) if a[0] == "H" and a[1]]
+        if other or base in IFACE_SPEC and base != "%":
+            r.ob(other == [IFACE_SPEC.get(base)], f"translate_bytecode.rs:translate_stmt:Assign:{sym}:interface-method", TB, 0,
+                 f"`{sym}` on a user-defined number type dispatches to {other}; binary `{base}` uses {IFACE_SPEC.get(base)}: `x {sym} y` then stores the result of another operation",
+                 sample=f"`{sym}` other types -> {other}")
     r.count("compound assignment chains", n_assign, 5, PARSE)
     r.ob(lex.get("=") is not None and pa.get(lex.get("=")) == "Equal", "parse.rs:parse_assign_op:=", PARSE, 0, "`=` must parse as plain assignment")
     for form, acts in sorted(forms.items()):
